@@ -407,10 +407,56 @@ def exec (idna : Idna) (st : St) (toks : List String) : St × String :=
     (st, s!"{v} ## {v}")
   | _ => (st, "?op ## ?")
 
+/-! ### self-referential arguments: the argument of the call is a VIEW of the object's own storage (a getter
+  result, the object's own href, the object itself as base, a name / value of the list being edited). For the
+  models a value is a value: each such operation is the ordinary operation applied to the current value. -/
+
+def hexNat (n : Nat) : String := String.ofList (Nat.toDigits 16 n)
+def unitsStr (l : List Nat) : String := if l.isEmpty then "-" else ",".intercalate (l.map hexNat)
+
+def getterBytes (u : Url) (g : String) : List Nat :=
+  match g with
+  | "href" => serialize u | "protocol" => getProtocol u | "username" => u.username | "password" => u.password
+  | "host" => getHost u | "hostname" => getHostname u | "port" => getPort u | "pathname" => pathText u
+  | "search" => getSearch u | "hash" => getHash u | _ => getPath u
+
+def rewriteAlias (st : St) (toks : List String) : List String :=
+  match toks with
+  | ["aset", slot, setter, getter] =>
+    match st.objs[slot.toNat!]!.url with
+    | some u => ["set", slot, setter, "8", unitsStr (getterBytes u getter)]
+    | none => ["dump", slot]
+  | ["aparse", slot] =>
+    match st.objs[slot.toNat!]!.url with
+    | some u => ["parse", slot, "8", unitsStr (serialize u), "-"]
+    | none => ["dump", slot]
+  | ["aparseb", slot, enc, units] => ["parse", slot, enc, units, "s" ++ slot]
+  | ["sp", slot, "aparse", enc, name] =>
+    match (st.objs[slot.toNat!]!.searchParams).sp with
+    | some p =>
+      match p.get (makeString (parseEnc enc) (parseUnits name)) with
+      | some v => ["sp", slot, "parse", "8", unitsStr v]
+      | none => ["sp", slot, "getv", enc, name]
+    | none => ["sp", slot, "getv", enc, name]
+  | ["psp", slot, "aparse", enc, name] =>
+    match st.params[slot.toNat!]!.get (makeString (parseEnc enc) (parseUnits name)) with
+    | some v => ["psp", slot, "parse", "8", unitsStr v]
+    | none => ["psp", slot, "getv", enc, name]
+  | ["psp", slot, "aappend"] =>
+    match st.params[slot.toNat!]!.list with
+    | (n, v) :: _ => ["psp", slot, "append", "8", unitsStr n, "8", unitsStr v]
+    | [] => ["psp", slot, "size"]
+  | ["psp", slot, "aset"] =>
+    match st.params[slot.toNat!]!.list, st.params[slot.toNat!]!.list.getLast? with
+    | (n, _) :: _, some (_, v) => ["psp", slot, "set", "8", unitsStr n, "8", unitsStr v]
+    | _, _ => ["psp", slot, "size"]
+  | _ => toks
+
 partial def loop (idna : Idna) (h : IO.FS.Stream) (out : IO.FS.Stream) (st : St) : IO Unit := do
   let line ← h.getLine
   if line.isEmpty then return ()
   let toks := (line.trimAscii.toString.splitOn " ").filter (· ≠ "")
+  let toks := rewriteAlias st toks
   let (st', o) := exec idna st toks
   out.putStrLn o
   loop idna h out st'
